@@ -88,7 +88,7 @@ theorem RInv.stash_roundtrip {root sp} (h : RInv root sp) (stk : List (List (Nat
   · exact hC.inv2.snapSeen
   · have hl := hC.inv2.latest
     show match (checkpoint sp.st none).entries.getLast? with
-      | some e => e.attr = e.snap.map (target _) ∧ ∀ y ∈ sp.st.work, y ∉ e.snap → sp.g y = none
+      | some e => e.attr = e.snap.map (target _) ∧ ∀ y ∈ sp.st.work, y ∉ e.snap → target _ y = none
       | none => _ = pendingOf _
     cases he : (checkpoint sp.st none).entries.getLast? with
     | some e =>
